@@ -6,7 +6,7 @@
    [td_of b addr d], an int result r reads as [vres_of (Some r)], None (a read outside the buffer) as VOob, C's
    `int required` as [negb (required =? 0)], `uint16_t align` is a power of two up to 32768.
    Only statements, each closed by [exact] of a lemma proved in Verifier/LeafEquiv*.v. *)
-From Flatcc.Verifier Require Import VerifierModel LeafTac LeafConv LeafEquiv LeafEquivField LeafEquivVector.
+From Flatcc.Verifier Require Import VerifierModel LeafTac LeafInv LeafConv LeafEquiv LeafEquivField LeafEquivVector.
 From Flatcc.Generated Require Import Leaf_verifier.
 Local Open Scope Z_scope.
 
@@ -23,15 +23,35 @@ Theorem C01_leaf_verify_struct_eq : forall e base offset size align,
 Proof. exact c_verify_struct_eq. Qed.
 Print Assumptions C01_leaf_verify_struct_eq.
 
+(* The table-descriptor leaves (read_vt_entry, verify_field, get_offset_field) are compared under the invariants their
+   call sites establish, in the C and in the model alike, BEFORE the leaf runs: [td_inv d] (LeafTac.v: what
+   verify_table has checked when it fills the descriptor - table position > 0, 4-aligned, header in the buffer; vtable
+   position even, < 2^31, in the buffer; vsize a 16-bit even number >= 4 with the vtable in the buffer; tsize a 16-bit
+   number within the buffer) and [id_ok id] (0 <= id < 32764, the ids a schema can contain).  Outside these the leaves
+   may legitimately differ between semantically equal implementations (`vo >= vsize` and `vo + 2 <= vsize` disagree
+   for an odd vsize that no descriptor ever has).  The next two theorems justify the hypotheses on the model side. *)
+Theorem C01_leaf_td_inv_established : forall b o e base offset ttl,
+  wf_buf b -> in_u32 e -> in_u32 base -> in_u32 offset ->
+  (exists r, forall tvf, verify_table_with b tvf o e base offset ttl = r) \/
+  (exists d, td_inv d /\ t_o d = o /\ t_end d = e /\ t_ttl d = ttl - 1 /\
+             forall tvf, verify_table_with b tvf o e base offset ttl = tvf d).
+Proof. exact verify_table_with_td_inv. Qed.
+Print Assumptions C01_leaf_td_inv_established.
+
+Theorem C01_leaf_field_ids_ok : forall f, field_wf f = true ->
+  id_ok (fid f) /\ match fk f with FUnion _ | FUnionVec _ => id_ok (fid f - 1) | _ => True end.
+Proof. exact field_wf_id_ok. Qed.
+Print Assumptions C01_leaf_field_ids_ok.
+
 (* read_vt_entry: same value, and a read outside the buffer exactly when the model has one *)
 Theorem C01_leaf_read_vt_entry_eq : forall b addr d id,
-  in_u16 id -> td_range d ->
+  id_ok id -> td_inv d ->
   c_read_vt_entry (td_of b addr d) id = read_vt_entry b d id.
 Proof. exact c_read_vt_entry_eq. Qed.
 Print Assumptions C01_leaf_read_vt_entry_eq.
 
 Theorem C01_leaf_verify_field_eq : forall b addr d id required size align,
-  in_u16 id -> in_s32 required -> in_u32 size -> pow2_16 align -> td_range d -> wf_buf b ->
+  id_ok id -> in_s32 required -> in_u32 size -> pow2_16 align -> td_inv d -> wf_buf b ->
   vres_of (c_verify_field (td_of b addr d) id required size align)
   = verify_field b addr d id (negb (required =? 0)) size align.
 Proof. exact c_verify_field_eq. Qed.
@@ -40,7 +60,7 @@ Print Assumptions C01_leaf_verify_field_eq.
 (* get_offset_field: same verdict; when the verdict is ok the out-parameter holds the model's base (0 = absent).
    On an error return the C leaves *out as it was (out0) where the model says 0: callers never look (check_field). *)
 Theorem C01_leaf_get_offset_field_eq : forall b addr d id required out0,
-  in_u16 id -> in_s32 required -> td_range d -> wf_buf b ->
+  id_ok id -> in_s32 required -> td_inv d -> wf_buf b ->
   match c_get_offset_field (td_of b addr d) id required out0 with
   | None => fst (get_offset_field b d id (negb (required =? 0))) = VOob
   | Some (r, o) =>
@@ -66,7 +86,7 @@ Print Assumptions C01_leaf_verify_vector_eq.
 (* the hypotheses are satisfiable, and the two sides are not trivially constant *)
 Example C01_leaf_example :
   pow2_16 8 /\ wf_buf (of_list [4; 0; 0; 0; 3; 0; 0; 0; 97; 98; 99; 0]) /\
-  td_range {| t_o := 0; t_end := 20; t_ttl := 99; t_vtable := 0; t_table := 8; t_tsize := 12; t_vsize := 8 |} /\
+  td_inv {| t_o := 0; t_end := 20; t_ttl := 99; t_vtable := 0; t_table := 8; t_tsize := 12; t_vsize := 8 |} /\ id_ok 3 /\
   c_check_header 12 0 4 = 1 /\ c_check_header 7 0 4 = 0 /\
   c_verify_string (ptr_of (of_list [4; 0; 0; 0; 3; 0; 0; 0; 97; 98; 99; 0]) 0 0) 12 0 4 = Some 0 /\
   c_verify_string (ptr_of (of_list [4; 0; 0; 0; 4; 0; 0; 0; 97; 98; 99; 0]) 0 0) 12 0 4 = Some E_string_out_of_range.
